@@ -7,11 +7,13 @@ set -u
 sid=$1; shift
 V=$(cd $(dirname $0)/.. && pwd)
 props="$@"
-if [ -z "$props" ]; then props=$(python3 -c "import json;print(json.load(open('$V/seeded/$sid/meta.json'))['property'])"); fi
+# <seeded-id> may also be a directory holding patch.diff (then the properties must be named)
+if [ -d "$sid" ]; then SD=$(cd $sid && pwd); sid=$(basename $SD); else SD=$V/seeded/$sid; fi
+if [ -z "$props" ]; then props=$(python3 -c "import json;print(json.load(open('$SD/meta.json'))['property'])"); fi
 W=/tmp/seedwt_$sid; OUT=/tmp/seedout_$sid
 git -C /repo worktree remove --force $W 2>/dev/null; rm -rf $W $OUT
 git -C /repo worktree add -q --detach $W HEAD || exit 9
-git -C $W apply $V/seeded/$sid/patch.diff || { echo "PATCH-FAILED $sid"; git -C /repo worktree remove --force $W; exit 8; }
+git -C $W apply $SD/patch.diff || { echo "PATCH-FAILED $sid"; git -C /repo worktree remove --force $W; exit 8; }
 mkdir -p $OUT
 # own cache (the library is rebuilt from the scratch worktree: ~50 s); only the tools are copied
 C=/tmp/seedcache_$sid; rm -rf $C; mkdir -p $C; cp -a $V/.cache/tools $C/tools
